@@ -171,7 +171,7 @@ def spec_to_argv(spec, paths, cpath=None):
     return groups
 
 
-def compare_table(got_header, got_rows, ref, sig=6, textfmt=False):
+def compare_table(got_header, got_rows, ref, sig=6, textfmt=False, abs_tol=0.0):
     """Compare a parsed csv table with the reference. Returns None or a message."""
     from vmon import vutil
     nd = len(ref["desc_names"])
@@ -205,5 +205,10 @@ def compare_table(got_header, got_rows, ref, sig=6, textfmt=False):
                 if txt.lower() not in ("nan", "inf", "-inf"):
                     return "row %d column %d: %s where the score is undefined" % (i, k, txt)
             elif not vutil.close_text_number(txt, w, sig):
+                try:
+                    if abs_tol and abs(float(txt) - w) <= abs_tol:
+                        continue
+                except ValueError:
+                    pass
                 return "row %d column %d: %s, reference %r" % (i, k, txt, w)
     return None
